@@ -484,9 +484,34 @@ func (vfs *BasePathFS) Stat(path string) (fs.FileInfo, error) {
 
 // Sub returns an FS corresponding to the subtree rooted at dir.
 func (vfs *BasePathFS) Sub(dir string) (avfs.VFS, error) {
-	subFS, err := vfs.baseFS.Sub(vfs.ToBasePath(dir))
+	basePath := vfs.ToBasePath(dir)
 
-	return subFS, vfs.FromPathError(err)
+	subFS, err := vfs.baseFS.Sub(basePath)
+	if err != nil {
+		return subFS, vfs.FromPathError(err)
+	}
+
+	// The sub file system of the base file system is not confined as a BasePathFS is : a symbolic link
+	// created through it with an absolute target leads out of the base path when it is followed through vfs.
+	// dir is served by a BasePathFS built on a view of the whole base file system,
+	// which has its own user, umask and current directory as subFS has.
+	rootFS, err := vfs.baseFS.Sub(avfs.VolumeName(vfs.baseFS, basePath) + string(vfs.PathSeparator()))
+	if err != nil {
+		return subFS, vfs.FromPathError(err)
+	}
+
+	// as for the sub file system of the base file system, a symbolic link to a directory is followed :
+	// the root directory of the result is the directory, not the link.
+	if evalPath, err := vfs.baseFS.EvalSymlinks(basePath); err == nil {
+		basePath = evalPath
+	}
+
+	subVFS, err := NewWithErr(rootFS, basePath)
+	if err != nil {
+		return subFS, vfs.FromPathError(err)
+	}
+
+	return subVFS, nil
 }
 
 // Symlink creates newname as a symbolic link to oldname.
